@@ -349,9 +349,15 @@ Proof. intros. apply ok_run, ok_start. Qed.
 Lemma ok_fold_attach s p l h : LinksOk h -> LinksOk (fold_left (fun h c => attach s h p c (length h)) l h).
 Proof. revert h; induction l as [|c t IH]; simpl; intros h L; auto. apply IH. now apply ok_attach. Qed.
 
+Lemma ok_detach_all n d p h : LinksOk h -> LinksOk (detach_all n d h p).
+Proof. revert h; induction n as [|n IH]; simpl; intros h L; auto. apply IH. now apply ok_detach. Qed.
+
 Theorem set_cssRules_ok_l : forall h p l, LinksOk h ->
   LinksOk (sheet_set_cssRules h p l) /\ LinksOk (container_set_cssRules h p l).
-Proof. intros. split; now apply ok_fold_attach. Qed.
+Proof.
+  intros. split; [now apply ok_fold_attach|]. unfold container_set_cssRules.
+  apply ok_fold_attach. now apply ok_detach_all.
+Qed.
 
 Theorem property_ctor_ok_l : forall h par, LinksOk h -> LinksOk (property_ctor h par).
 Proof. intros. unfold property_ctor. apply ok_attach. now do 2 apply ok_alloc. Qed.
@@ -391,7 +397,7 @@ Theorem parentStyleSheet_any_depth_l : forall h, LinksOk h ->
   forall oc fuel, get h c = Some oc -> n <= fuel -> acc_parentStyleSheet fuel h oc = Some (Some s).
 Proof.
   intros h [_ E] s c n B. induction B as [c os G I|p c op n B IH G I]; intros oc fuel Gc Lf.
-  - destruct (E _ _ _ _ G I) as (oc' & Gc' & _ & Fpr & Fpss). rewrite Gc in Gc'. inversion Gc'; subst.
+  - destruct (E _ _ _ _ G I) as (oc' & Gc' & _ & Fpr & Fpss & _). rewrite Gc in Gc'. inversion Gc'; subst.
     destruct fuel; simpl; rewrite Fpr; now rewrite Fpss.
   - destruct (E _ _ _ _ G I) as (oc' & Gc' & _ & Fpr & _). rewrite Gc in Gc'. inversion Gc'; subst.
     destruct fuel as [|fuel]; [lia|]. simpl. rewrite Fpr, G. apply IH; auto. lia.
@@ -418,12 +424,14 @@ Proof.
   - destruct (contained _ c) eqn:C; auto. apply contained_spec in C.
     rewrite allkids_upd_same in C by apply dsite_writes_kids. contradiction.
   - assert (exists oc1, get (upd h p (set_kids rest)) c = Some oc1 /\ okind oc1 = okind oc /\
-                        f_pr oc1 = f_pr oc /\ f_pss oc1 = f_pss oc) as (oc1 & Gc1 & K1 & Fpr1 & Fpss1).
-    { rewrite get_upd. destruct (Nat.eqb p c); rewrite Gc; simpl; eauto. }
+                        f_pr oc1 = f_pr oc /\ f_pss oc1 = f_pss oc /\ f_par oc1 = f_par oc)
+      as (oc1 & Gc1 & K1 & Fpr1 & Fpss1 & Fpar1).
+    { rewrite get_upd. destruct (Nat.eqb p c); rewrite Gc; simpl; eauto 10. }
     exists (dsite_writes d oc1). split; [now apply get_upd_eq|].
-    unfold acc_parentRule, acc_parent, is_rule.
-    destruct d; simpl in *; destruct S as [K [F1 F2]]; rewrite K1, K; simpl.
-    + rewrite Fpr1, F1. repeat split; auto. intros fuel. destruct fuel; simpl; rewrite Fpr1, F1; reflexivity.
+    unfold acc_parentRule, acc_parent.
+    destruct d; simpl in *; destruct S as [K [F1 [F2 F3]]].
+    + rewrite Fpr1, F1, Fpar1, F3. repeat split; auto.
+      intros fuel. destruct fuel; simpl; rewrite Fpr1, F1; reflexivity.
     + repeat split; auto. intros fuel. destruct fuel; simpl; rewrite Fpss1, F2; reflexivity.
 Qed.
 
